@@ -97,6 +97,13 @@ class _Instrumented(object):
         if k == "systemerror":
             log("Finish", self.ident, "raise")
             raise KeyError("scripted")
+        if k in ("oserror", "timeout", "connection"):
+            # OSError family without an errno (a timed-out wait, a dropped connection)
+            log("Finish", self.ident, "raise")
+            raise {"oserror": OSError("scripted, no errno"), "timeout": TimeoutError(), "connection": ConnectionError()}[k]
+        if k in ("tuple", "emptytuple", "falsy"):
+            log("Finish", self.ident, "ret_val")
+            return {"tuple": ("stopped", "scripted reason"), "emptytuple": (), "falsy": ""}[k]
         log("Finish", self.ident, "ret_none")
         return None
 
